@@ -1052,11 +1052,7 @@ func runC09(c *Ctx) {
 	for _, g := range []string{"defnest-if", "defnest-if-after", "defnest-for", "defnest-closure", "defnest-lambda", "defnest-index", "defnest-mixed", "defnest-called"} {
 		for li, n := range defLevels {
 			sp := childSpec{Gen: g, N: n, MaxDepth: 1000, DurMs: 200, ASLimit: asLimit, Compact: li%2 == 1}
-			r := runChild(c, sp, memLimitStr, 10*time.Second)
-			judge(c, g, sp, r, "")
-			if r.ok && len(r.rep.Errs) > 0 {
-				c.Fail(g+":definition-fails", fmt.Sprintf("gen=%s n=%d", g, n), r.rep.Errs[0])
-			}
+			judge(c, g, sp, runChild(c, sp, memLimitStr, 10*time.Second), "none") // no error at all: a definition is instantaneous
 		}
 	}
 	// deeply nested source text: sizes that the front end and the evaluator handle
